@@ -228,6 +228,8 @@ def any_profile(reopen_ok=False, weights=None, with_manydirs=False):
         table['bootlinks'] = bootlinks(reopen_ok=reopen_ok)
     if 'reloctwins' in w:
         table['reloctwins'] = reloctwins(reopen_ok=reopen_ok)
+    if 'readd' in w:
+        table['readd'] = readd(reopen_ok=reopen_ok)
     alts = []
     for name, n in w.items():
         s = table[name].map(lambda p, name=name: dict(p, profile=name))
@@ -300,7 +302,14 @@ def hybrid(cfg=None, reopen_ok=False):
     x86boot = add_boot.map(lambda o: dict(o, j=0, media=0, plat=0, efi=False, load=None))
     x86_part = st.one_of(st.just([]), st.just([]), st.tuples(x86file, x86boot).map(list))
 
-    def assemble(bf, f, e, p, h, b, consistent, x86=()):
+    # a partition offset of 256 cylinders and more (the CHS fields split the cylinder number over two bytes): tiny geometry, an
+    # image that is larger than the offset
+    bigoff = st.one_of(st.none(), st.none(), st.none(), st.tuples(st.integers(1, 2), st.integers(1, 3), st.integers(256, 1100)))
+
+    def assemble(bf, f, e, p, h, b, consistent, x86=(), big=None):
+        if big is not None:
+            p = p + [{'k': 'add_fp', 'd': 0, 'ns': 1, 'len': 600000, 'sz': 1, 'rsz': 1, 'usz': 1, 'lead': 7, 'salt': 7, 'mode': None, 'ck': 0, 'file': False, 'reuse': 0}]
+            h = dict(h, gs=big[0], gh=big[1], po=big[2])
         if x86:
             # a further entry for the x86 platform with an image of its own (the hybrid boot sector must keep loading the initial entry's file)
             e = e + [x86[0], dict(x86[1], b=len(e) // 2 + 1)]
@@ -312,7 +321,7 @@ def hybrid(cfg=None, reopen_ok=False):
             n = len(e) // 2 - (1 if x86 else 0)
             h = dict(h, efi=(True if n >= 1 else None), mac=(n == 2), pt=(None if n else h.get('pt')))
         return [bf, f] + e + p + [h] + b
-    return program(c, st.builds(assemble, bootfile, first, efi_part, pre, add_hybrid, body, st.sampled_from([True, True, True, 'shared', False]), x86_part))
+    return program(c, st.builds(assemble, bootfile, first, efi_part, pre, add_hybrid, body, st.sampled_from([True, True, True, 'shared', False]), x86_part, bigoff))
 
 
 _old_any_profile = any_profile
@@ -410,6 +419,44 @@ def reloctwins(cfg=None, reopen_ok=False):
     if reopen_ok:
         tail_choices += [reopen, reopen]
     return program(c, st.builds(build, st.lists(D, min_size=6, max_size=6), D, D, F, D, D, F, st.booleans(), st.lists(st.one_of(*tail_choices), min_size=0, max_size=10)))
+
+
+def readd(cfg=None, reopen_ok=False):
+    """Take a small tree down and build it again under the *same* names: a chain of two or three directories
+    (optionally with files), removed bottom-up with rm_directory (no file removal in between when the chain holds
+    no files), then the same directories again (`reuse` picks the names by their position in the model's pool),
+    then new files and sub-directories inside.  Anything keyed by a path or a name - lookup caches, name indexes,
+    duplicate checks - sees a name that existed, was removed and exists again."""
+    c = cfg if cfg is not None else cfg_st()
+
+    def build(depth, dirs, files, with_files, mid, tail, twice):
+        ops = []
+        for k in range(depth):
+            ops.append(dict(dirs[k], d=(0 if k == 0 else -1), reuse=0, ns=7))
+        nfiles = 0
+        if with_files:
+            for f in files[:2]:
+                ops.append(dict(f, d=-1, reuse=0))
+                nfiles += 1
+        ops += mid
+        ops += [{'k': 'rm_file', 'b': 0, 'j': 0}] * nfiles
+        ops += [{'k': 'rm_dir', 'd': 0, 'ns': 7}] * depth
+        for rnd in range(2 if twice else 1):
+            for k in range(depth):
+                # the pool of directory names holds the `depth` fresh draws in creation order: index k is the k-th of the chain
+                ops.append(dict(dirs[k], d=(0 if k == 0 else -1), reuse=(k if k else depth), ns=7))
+            if rnd == 0 and twice:
+                ops += [{'k': 'rm_dir', 'd': 0, 'ns': 7}] * depth
+        return ops + tail
+    D = add_dir(rsz=st.integers(0, 2), sz=st.integers(0, 2))
+    F = add_fp(length=SMALL_LEN, file=st.just(False))
+    mid_choices = [query, force, write]
+    tail_choices = [add_fp(d=st.just(-1), length=SMALL_LEN), add_fp(d=I, length=SMALL_LEN), add_dir(d=st.just(-1)), add_sym, query, write, rm_file, rm_dir, add_link]
+    if reopen_ok:
+        mid_choices.append(reopen)
+        tail_choices.append(reopen)
+    return program(c, st.builds(build, st.sampled_from([2, 2, 3]), st.lists(D, min_size=3, max_size=3), st.lists(F, min_size=2, max_size=2), st.booleans(),
+                                st.lists(st.one_of(*mid_choices), min_size=0, max_size=2), st.lists(st.one_of(*tail_choices), min_size=1, max_size=8), st.booleans()))
 
 
 def _recipe(target, sizes, picks):
